@@ -24,6 +24,14 @@ CHECKS = {
                 technique="fault enumeration over generated archives: every byte offset of every write (initial file, torn 12-byte trailer patch, appended delta) as a crash image; oracle = uninterrupted run's snapshots (own format parser) + restart differential",
                 text="For Hypothesis-generated uninterrupted runs (manual and automatic cadence, bit-wise restartable integrators, structural edits between snapshots) the file image after each write is recorded and EVERY prefix cut of every write is materialised (exhaustive per archive, ~5000 images each). Each image is opened through the Python class and both C entry points in a contained worker: no crash, an error iff no snapshot is complete, otherwise exactly the completed snapshots with contents equal to the uninterrupted run; restart from the last exposed snapshot with the same cadence must reproduce the uninterrupted archive (every offset in the thorough tier, a stride plus all torn-patch/END cuts in quick).",
                 note="Crash model = prefix of one write's bytes (plus the 'append landed, patch did not' reordering class for the read checks only); no arbitrary corruption. Images are computed from the before/after file images (verified to differ only in the trailer patch and the tail). A cut inside the final 12-byte trailer may expose k or k+1 snapshots. Under this model the reader's offset checksum is redundant (mutant offset-check-disabled is equivalent)."),
+    "C02": dict(level="exploration", design="1/C02",
+                technique="Hypothesis generators + independent high-precision O(N^2) reference (numpy longdouble / mpmath) + geometric octree predictor + metamorphic two-route WHFast step + two-part force identities",
+                text="No counterexample among ~9.5k generated configurations per quick run: every gravity routine of the default build (BASIC, COMPENSATED, JACOBI, TREE, MERCURIUS and TRACE splittings) reproduces an independently written pairwise reference to (n_terms+16)*eps*sum|terms| across N (0..200), N_active, testparticle_type, gravity_ignore_terms, softening, G, ghost boxes and shear; TREE with theta>0 equals the Barnes-Hut sum predicted from a geometric octree and obeys the multipole bound; the MERCURIUS/TRACE parts add up to the full force; sum(m a)=0 when all active. Three documented-semantics deviations of TREE/JACOBI are open known findings.",
+                note="Trusts numpy longdouble and mpmath, the specification read from docs/simulationvariables.md and the property text, the ctypes mirror for integrator internals (dcrit, encounter maps, K masks) and reb_boundary_get_ghostbox for the shear representative (congruence checked). OPENMP/MPI/QUADRUPOLE builds not covered. Opening decisions within rounding of the threshold are skipped and counted."),
+    "C12": dict(level="exploration", design="1/C12",
+                technique="Hypothesis-generated particle arrays through ctypes + mpmath linear-map oracle written from the coordinate definitions + round trip + variant agreement",
+                text="No counterexample among ~6.8k generated particle sets per quick run (x4 coordinate systems): the forward maps equal the textbook definitions of Jacobi / democratic heliocentric / WHDS / barycentric coordinates with slot 0 = total active mass and centre of mass; inverse(forward) returns positions and velocities to 4(N+8)*eps*(|A^-1| fwd)*max|x|; pos / posvel / acc variants agree; the MERCURIUS/TRACE heliocentric shifts and move_to_hel/com behave as defined, for any N_active, zero-mass bodies and mass ratios to 1e-12. One open known finding (Jacobi inverse recovers mass sums by subtraction).",
+                note="Trusts mpmath and the harness's transcription of the coordinate definitions; domain m0>0; the output array of an inverse carries the masses; sentinel-filled output arrays detect unwritten members."),
 }
 
 NOT_APPLICABLE = []
